@@ -473,8 +473,13 @@ func (s *Session) handleReceive(ks []cid.Cid) {
 	s.latencyTrkr.receiveUpdate(len(wanted), totalLatency)
 
 	// Inform the SessionManager that this session is no longer expecting to
-	// receive the wanted keys, since we now have them,
-	s.sm.CancelSessionWants(s.id, wanted)
+	// receive the wanted keys, since we now have them. This goes through the
+	// sessionWantSender, like a cancel by the client does: the want sender
+	// works asynchronously and may be about to send one of these keys to
+	// another peer (because a peer just went away or answered DONT_HAVE). A
+	// cancel sent from here could overtake that want, which nothing would
+	// cancel afterwards.
+	s.sws.Cancel(wanted)
 
 	s.idleTick.Stop()
 
